@@ -92,11 +92,14 @@ theorem step_close_noop (s : State) (i : Nat)
     · simp [step, hw, ha]
     · simp only [step, hw, hm]; split <;> rfl
 
+/-- `resolveMatch` with handlers that may refuse: only the number of handlers that took the value
+matters — the step is the step of `resolve` with that many (all-taking) directives. -/
+theorem step_resolveH (s : State) (takes : List Bool) :
+    step s (.resolveH takes) = step s (.resolve (takes.count true)) := rfl
+
 theorem inv_step (s : State) (o : Op) (h : Inv s) : Inv (step s o).1 := by
-  cases o with
-  | newNil => exact inv_append s h false
-  | newErr => exact inv_append s h true
-  | resolve k =>
+  have hres : ∀ k : Nat, Inv (step s (.resolve k)).1 := by
+    intro k
     obtain ⟨h1, h2, h3, h4, h5, h6⟩ := h
     simp only [step]
     constructor
@@ -132,6 +135,11 @@ theorem inv_step (s : State) (o : Op) (h : Inv s) : Inv (step s o).1 := by
       rcases append_cases hi with ⟨_, rfl⟩ | ⟨_, hi'⟩
       · simp
       exact h6 i w hi'
+  cases o with
+  | newNil => exact inv_append s h false
+  | newErr => exact inv_append s h true
+  | resolve k => exact hres k
+  | resolveH takes => rw [step_resolveH]; exact hres _
   | accept i =>
     cases hw : s.wrappers[i]? with
     | none => rw [step_accept_noop s i (by simp [hw])]; exact h
@@ -264,6 +272,7 @@ theorem returned_mono_step (s : State) (o : Op) (m : Nat) (h : m ∈ s.returned)
     m ∈ (step s o).1.returned := by
   cases o with
   | resolve k => exact h
+  | resolveH takes => exact h
   | newNil => exact h
   | newErr => exact h
   | close i =>
@@ -287,6 +296,11 @@ theorem closed_mono_step (s : State) (o : Op) (m : Nat) (h : m ∈ s.closed) :
     m ∈ (step s o).1.closed := by
   cases o with
   | resolve k =>
+    simp only [step]
+    split
+    · exact List.mem_cons_of_mem _ h
+    · exact h
+  | resolveH takes =>
     simp only [step]
     split
     · exact List.mem_cons_of_mem _ h
@@ -321,6 +335,7 @@ theorem err_mono_step (s : State) (o : Op) (i : Nat) (w : Wrapper)
     intro x; rw [List.getElem?_append_left hlt]; exact hw
   cases o with
   | resolve k => exact ⟨w, happ _, he, rfl⟩
+  | resolveH takes => exact ⟨w, happ _, he, rfl⟩
   | newNil => exact ⟨w, happ _, he, rfl⟩
   | newErr => exact ⟨w, happ _, he, rfl⟩
   | accept j =>
@@ -412,6 +427,7 @@ theorem returned_count_step (s : State) (o : Op) (m : Nat) :
       s.returned.count m + (if (step s o).2 = .stream (some m) then 1 else 0) := by
   cases o with
   | resolve k => simp [step]
+  | resolveH takes => simp [step]
   | newNil => simp [step]
   | newErr => simp [step]
   | close i =>
